@@ -320,6 +320,7 @@ func TestC16(t *testing.T) {
 				r.Count(m+"_cached_token_of_replaced_generation", hr.StaleC)
 				r.Count(m+"_reloads_not_observed", hr.Unobs)
 				r.Count(m+"_tokens_paired_with_later_key_set", hr.Paired)
+				r.Count(m+"_key_sets_fetched_after_token_of_reloaded_generation", hr.AfterTok)
 				if hr.Verdict == "illegal" && m == "signer" {
 					r.Violation("not-linearizable", fmt.Sprintf("signer history %d is not linearizable w.r.t. a register 'current key-store generation'", idx), hr)
 				}
